@@ -95,6 +95,13 @@ theorem absFrame_app {f : Msg} (hA : f.mtype ≠ mLogon) (h2 : f.mtype ≠ mRese
 
 /-! ### journal rows -/
 
+theorem allLt_append_last {k n : Int} {m : Msg} {rs : Rows} (h : AllLt k rs) (hk : k < n) :
+    AllLt n (rs ++ [(k, m)]) :=
+  allLt_append_singleton (allLt_mono (by omega) h) hk
+
+theorem allLt_push {k : Int} {m : Msg} {rs : Rows} (h : AllLt k rs) : AllLt (k + 1) (rs ++ [(k, m)]) :=
+  allLt_append_last h (by omega)
+
 theorem rowsGood_allLt {snd tgt : String} {o : Int} {rs : Rows} (h : RowsGood snd tgt o rs) : AllLt o rs :=
   fun p hp => (h.range p hp).2
 
